@@ -318,6 +318,7 @@ class Engine:
             return f_and(*[f_not(self.cond(p)) for p in fr[1]])
         if k == 'case':
             pats = tuple(self.norm(p) for p in fr[2])
+            pats = tuple(('const', p[3]) if p[0] == 'enum' and isinstance(p[3], int) else p for p in pats)
             key = f"case#{fr[1]}(" + ", ".join(ir.show(p) for p in pats) + ")"
             self.atom_ir[key] = ('caseatom', fr[1], pats)
             return ('atom', key)
@@ -430,7 +431,7 @@ def build(engine, drivers, default, include_gen=True):
 
 def expected(engine, table, default):
     """table: list of (guard IR, value IR) highest priority first (already role-substituted)."""
-    return DL([(engine.cond(g), v) for g, v in table], default)
+    return DL([(g[1] if g[0] == 'formula' else engine.cond(g), v) for g, v in table], default)
 
 
 def _pick(engine, dl, val):
